@@ -102,6 +102,12 @@ func drawArg(t *rt.Tape, bits int, bigHeader bool) circuit.IOArg {
 		arg := circuit.IOArg{Name: drawName(t), Type: mustType(fmt.Sprintf("struct%d", bits))}
 		arg.Type.Bits = types.Size(bits)
 		rest := bits
+		if t.Choose(rt.SGen, 4) == 0 {
+			// a zero-width member (empty string, empty array): no wires, but part of the signature
+			z := circuit.IOArg{Name: drawName(t), Type: mustType([]string{"uint0", "string0", "[3]uint0", "int0"}[t.Choose(rt.SGen, 4)])}
+			arg.Compound = append(arg.Compound, z)
+			rt.Reach("io.zero-width-member")
+		}
 		for rest > 0 {
 			b := 1 + t.Choose(rt.SGen, min(rest, 16))
 			if bigHeader {
